@@ -5,6 +5,7 @@ use hcommon::Report;
 mod breaker;
 mod node;
 mod reads;
+mod replicator;
 mod watermark;
 
 fn main() {
@@ -16,6 +17,7 @@ fn main() {
     let rt = tokio::runtime::Builder::new_multi_thread().worker_threads(4).enable_all().build().unwrap();
     match args[1].as_str() {
         "reads" => rt.block_on(reads::reads_cmd(&mut rep, &args[2], args[3].parse().unwrap())),
+        "replicator" => rt.block_on(replicator::replicator_cmd(&mut rep, &args[2])),
         "watermark" => rt.block_on(watermark::watermark_cmd(&mut rep, &args[2])),
         "breaker" => breaker::breaker_cmd(&mut rep, &args[2], &args[3], args.get(4).map(|s| s.as_str()).unwrap_or("conform")),
         other => panic!("unknown subcommand {other}"),
